@@ -79,7 +79,7 @@ pub fn run(ctx: &mut Ctx) {
     let ls = lists(ctx.tier_thorough);
     let sentinel = json!("§SENTINEL§");
     // the debug profile runs the shorter lists only
-    let maxlen = if ctx.profile == "release" { 4 } else { 2 };
+    let maxlen = if ctx.profile != "dev" { 4 } else { 2 };
     for l in &ls {
         if l.len() > maxlen {
             continue;
@@ -141,7 +141,7 @@ pub fn run(ctx: &mut Ctx) {
     }
     // missing / missing_some agree with var on the whole path space of C11 (trees x paths)
     {
-        let depth = if ctx.tier_thorough && ctx.profile == "release" { 2 } else { 1 };
+        let depth = if ctx.tier_thorough && ctx.profile != "dev" { 2 } else { 1 };
         let ts = crate::spaces::c11::trees(depth, ctx.tier_thorough);
         let ps = crate::spaces::c11::paths(ctx.tier_thorough);
         for t in &ts {
